@@ -47,7 +47,7 @@ fn c02(a: &Args) {
     let mut panics: Vec<Value> = vec![];
     for (_o, t) in &pool {
         for be in [Backend::Str, Backend::Buf] {
-            for api in [Api::Iter, Api::PushMulti] {
+            for api in [Api::Iter, Api::PeekNext, Api::PushMulti] {
                 let cfg = format!("{}/{}", be.name(), api.name());
                 cur.set(t, &cfg);
                 let r = run_parser(t, be, api);
